@@ -215,7 +215,7 @@ func burstJobs(thorough bool, seed int64, firstID int) []Job {
 	for _, lim := range []int{1, 2, 3} {
 		for k := 0; k < per; k++ {
 			f := &BurstSpec{Seed: seed*7919 + int64(lim*10+k), Limit: lim, MinB: 8, MaxB: 16, Rounds: rounds}
-			out = append(out, Job{ID: firstID + len(out), Kind: "burst", Name: fmt.Sprintf("burst/limit%d/%d", lim, k), DeadlineMs: 5000, Attempt: 1, Burst: f})
+			out = append(out, Job{ID: firstID + len(out), Kind: "burst", Name: fmt.Sprintf("burst/limit%d/%d", lim, k), DeadlineMs: 5000, MaxMs: 900000, Attempt: 1, Burst: f})
 		}
 	}
 	return out
